@@ -577,6 +577,177 @@ theorem current_file (isPrint : Nat → Bool) (ts : Bytes) (lvl : Nat) (m : Byte
     (MtxVerif.Gen.C37.fileQuoter = .strconvQuote ∧ goQuoteNonJSON isPrint m = true) :=
   classified _ isPrint ts lvl m hts
 
+/-! #### spec adequacy: the record reader only accepts single lines -/
+
+theorem dec_nl (st : DSt) (r : Bytes) : dec st (10 :: r) = none := by
+  cases st <;> rfl
+
+theorem map_pair_some {α : Type} {o : Option (Bytes × Bytes)} {g : Bytes → α} {d : α} {rest : Bytes}
+    (h : o.map (fun p => (g p.1, p.2)) = some (d, rest)) : ∃ d', o = some (d', rest) := by
+  cases o with
+  | none => cases h
+  | some p =>
+    obtain ⟨a, b⟩ := p
+    simp only [Option.map_some, Option.some.injEq, Prod.mk.injEq] at h
+    exact ⟨a, by rw [h.2]⟩
+
+theorem dec_step {st : DSt} {c : UInt8} {r d rest : Bytes} (h : dec st (c :: r) = some (d, rest)) :
+    rest = r ∨ ∃ st' d', dec st' r = some (d', rest) := by
+  cases st with
+  | s0 =>
+    simp only [dec] at h
+    split at h
+    · injection h with h; injection h with _ h2; exact Or.inl h2.symm
+    · split at h
+      · exact Or.inr ⟨_, _, h⟩
+      · split at h
+        · cases h
+        · obtain ⟨d', hd⟩ := map_pair_some h
+          exact Or.inr ⟨_, _, hd⟩
+  | s1 =>
+    simp only [dec] at h
+    split at h
+    · exact Or.inr ⟨_, _, h⟩
+    · split at h
+      · obtain ⟨d', hd⟩ := map_pair_some h
+        exact Or.inr ⟨_, _, hd⟩
+      · cases h
+  | su n acc hi =>
+    simp only [dec] at h
+    split at h
+    · cases h
+    · split at h
+      · exact Or.inr ⟨_, _, h⟩
+      · split at h
+        · obtain ⟨d', hd⟩ := map_pair_some h
+          exact Or.inr ⟨_, _, hd⟩
+        · exact Or.inr ⟨_, _, h⟩
+        · cases h
+  | sh hi =>
+    simp only [dec] at h
+    split at h
+    · exact Or.inr ⟨_, _, h⟩
+    · cases h
+  | sh1 hi =>
+    simp only [dec] at h
+    split at h
+    · exact Or.inr ⟨_, _, h⟩
+    · cases h
+
+
+
+def NoNL (l : Bytes) : Prop := ∀ c ∈ l, c ≠ 10
+
+/-- `s` is `rest` preceded by bytes none of which is a newline -/
+def Eats (s rest : Bytes) : Prop := ∃ pre, s = pre ++ rest ∧ NoNL pre
+
+theorem Eats.refl (s : Bytes) : Eats s s := ⟨[], rfl, fun _ h => by cases h⟩
+
+theorem Eats.trans {a b c : Bytes} (h1 : Eats a b) (h2 : Eats b c) : Eats a c := by
+  obtain ⟨p1, e1, n1⟩ := h1
+  obtain ⟨p2, e2, n2⟩ := h2
+  refine ⟨p1 ++ p2, by rw [e1, e2, List.append_assoc], ?_⟩
+  intro x hx
+  rcases List.mem_append.mp hx with h | h
+  · exact n1 x h
+  · exact n2 x h
+
+theorem Eats.cons {c : UInt8} (hc : c ≠ 10) {s rest : Bytes} (h : Eats s rest) : Eats (c :: s) rest := by
+  obtain ⟨p, e, n⟩ := h
+  refine ⟨c :: p, by rw [e]; rfl, ?_⟩
+  intro x hx
+  rcases List.mem_cons.mp hx with rfl | hx
+  · exact hc
+  · exact n x hx
+
+theorem dec_eats : ∀ (s : Bytes) (st : DSt) (d rest : Bytes), dec st s = some (d, rest) → Eats s rest := by
+  intro s
+  induction s with
+  | nil => intro st d rest h; cases st <;> simp [dec] at h
+  | cons c r ih =>
+    intro st d rest h
+    have hc : c ≠ 10 := by intro e; subst e; rw [dec_nl] at h; cases h
+    rcases dec_step h with e | ⟨st', d', h'⟩
+    · subst e; exact Eats.cons hc (Eats.refl _)
+    · exact Eats.cons hc (ih st' d' rest h')
+
+theorem skipWs_eats : ∀ s : Bytes, Eats s (skipWs s) := by
+  intro s
+  induction s with
+  | nil => exact Eats.refl _
+  | cons c r ih =>
+    simp only [skipWs]
+    split
+    · rename_i h
+      refine Eats.cons ?_ ih
+      rcases h with h | h <;> (subst h; decide)
+    · exact Eats.refl _
+
+theorem eats_of_skipWs {s t : Bytes} {c : UInt8} (hc : c ≠ 10) (h : skipWs s = c :: t) : Eats s t := by
+  have h1 := skipWs_eats s
+  rw [h] at h1
+  exact h1.trans (Eats.cons hc (Eats.refl t))
+
+theorem parseMembers_eats : ∀ (f : Nat) (s : Bytes) (ms : List (Bytes × Bytes)) (rest : Bytes),
+    parseMembers f s = some (ms, rest) → Eats s rest := by
+  intro f
+  induction f with
+  | zero => intro s ms rest h; simp [parseMembers] at h
+  | succ f ih =>
+    intro s ms rest h
+    simp only [parseMembers] at h
+    split at h
+    · rename_i r
+      split at h
+      · cases h
+      · rename_i key r1 hk
+        split at h
+        · rename_i r2 h2
+          split at h
+          · rename_i r3 h3
+            split at h
+            · cases h
+            · rename_i val r4 hv
+              have e1 : Eats r r1 := dec_eats _ _ _ _ hk
+              have e2 : Eats r1 r2 := eats_of_skipWs (by decide) h2
+              have e3 : Eats r2 r3 := eats_of_skipWs (by decide) h3
+              have e4 : Eats r3 r4 := dec_eats _ _ _ _ hv
+              have e14 : Eats (34 :: r) r4 := Eats.cons (by decide) (e1.trans (e2.trans (e3.trans e4)))
+              split at h
+              · rename_i r5 h5
+                have e5 : Eats r4 r5 := eats_of_skipWs (by decide) h5
+                cases hp : parseMembers f (skipWs r5) with
+                | none => rw [hp] at h; cases h
+                | some p =>
+                  obtain ⟨ms', rest'⟩ := p
+                  rw [hp] at h
+                  simp only [Option.map_some, Option.some.injEq, Prod.mk.injEq] at h
+                  have e6 := ih _ _ _ hp
+                  rw [h.2] at e6
+                  exact e14.trans (e5.trans ((skipWs_eats r5).trans e6))
+              · rename_i r5 h5
+                have e5 : Eats r4 r5 := eats_of_skipWs (by decide) h5
+                injection h with h; injection h with _ h2
+                rw [← h2]
+                exact e14.trans e5
+              · cases h
+          · cases h
+        · cases h
+    · cases h
+
+/-- **Spec adequacy: "exactly one line".** Whatever `parseLine` accepts ends in `\n` and contains no
+other newline. -/
+theorem parseLine_one_line (s : Bytes) (ms : List (Bytes × Bytes)) (h : parseLine s = some ms) :
+    ∃ body, s = body ++ [10] ∧ ∀ c ∈ body, c ≠ 10 := by
+  unfold parseLine at h
+  split at h
+  · rename_i r
+    split at h
+    · rename_i ms' hp
+      exact Eats.cons (by decide) ((skipWs_eats r).trans (parseMembers_eats _ _ _ _ hp))
+    · cases h
+  · cases h
+
 /-! #### samples (tests, not theorems) -/
 
 example : TsPlain tsSample := by decide
